@@ -128,7 +128,7 @@ func (tr *Tr) script(goal string, models bool) string {
 			hit := false
 			nconst := 0
 			for _, s := range syms {
-				if sl.isFun[s] {
+				if sl.isFun[s] || strings.HasPrefix(s, "|!q") {
 					continue
 				}
 				nconst++
